@@ -147,11 +147,16 @@ def fresh_for(cls, method, prof):
     return t.get((cls, method), {})
 
 
-def universe(tier, cls=None, method=None):
+def universe(tier, cls=None, method=None, ns_policy=None):
     name = tier + ("_heavy" if (cls, method) in HEAVY else "")
     p = dict(PROFILES[name])
     p["profile"] = name
     fresh = fresh_for(cls, method, p) if cls else {}
+    if ns_policy:
+        # colliding alphabet: case variants, a distinct name, an identifier that is illegal in EDIF
+        u = Universe(p["live"], fresh, p["K"], atoms=("a", "A", "b", "1x"))
+        u.ns_values = (ns_policy,)
+        return u, p
     return Universe(p["live"], fresh, p["K"]), p
 
 
@@ -216,21 +221,35 @@ class ArgBuilder:
         raise ValueError(dom)
 
 
-def run_mutator(u, seqlen, cls, method, doms, kwdoms=None, listeners=None, prep=None):
+def run_mutator(u, seqlen, cls, method, doms, kwdoms=None, listeners=None, prep=None, ns_policy=None,
+                self_slot=None, shape=None):
     """symbolically execute one mutator from an arbitrary pre-state.
     returns dict(pre, post, ctx, assumptions(list of z3), args(builder), retval)"""
     pre = Heap.symbolic(u, "s")
+    if shape is not None:
+        pre.apply_shape(shape)
+    if ns_policy:
+        from vf.e1 import nsmodel as NS
+        pre.extra["ns"] = NS.NSState.make(u, True)
     heap = pre.copy()
     ctx = Ctx(heap, REAL)
     if prep:
         prep(ctx)
     fr = Frame(None, True, {})
     ab = ArgBuilder(u, seqlen)
-    self_ref = ab.ref((cls,), allow_none=False, base="self")
+    if self_slot is None:
+        self_ref = ab.ref((cls,), allow_none=False, base="self")
+    else:
+        self_ref = Ref(u.gid(cls, self_slot), (cls,))      # receiver fixed by the job (cube split)
     args, variants = [], []
     for d in doms:
         args.append(ab.build(d))
     kwargs = {k: ab.build(d) for k, d in (kwdoms or {}).items()}
+    pre_assumptions = pre.type_constraints() + spec.inv_all(pre) + ab.constraints
+    if ns_policy:
+        for cs in NS.i4(pre, ns_policy).values():
+            pre_assumptions += cs
+    ctx.path_assumptions = [B(a) for a in pre_assumptions if a is not True]
     if method.startswith("set:"):
         a, owner = mro_lookup(REAL[cls], method[4:])
         fn = a.fset
@@ -261,6 +280,9 @@ def run_mutator(u, seqlen, cls, method, doms, kwdoms=None, listeners=None, prep=
         call_function(ctx, fr, fn, [self_ref] + a2, kwargs, owner=owner)
         fr.g = g0
     assumptions = pre.type_constraints() + spec.inv_all(pre) + ab.constraints
+    if ns_policy:
+        for cs in NS.i4(pre, ns_policy).values():
+            assumptions += cs
     return dict(pre=pre, post=heap, ctx=ctx, assumptions=[B(a) for a in assumptions if a is not True],
                 ab=ab, self_ref=self_ref, args=args, kwargs=kwargs, ret=ret, fn=fn)
 
@@ -300,3 +322,21 @@ def listeners_recorder(ctx):
             c.events.append((live(c, fr), _kind, list(args), c.h.copy()))
             return None
         ctx.natives[rec] = handler
+
+
+def listeners_manager(policy):
+    """the real NamespaceManager stays registered (its code is interpreted from source); its nested
+    dictionaries live in heap.extra['ns']; every element carries .NS == policy (uniform policy)"""
+    def prep(ctx):
+        from vf.e1 import nsmodel as NS
+        from spydrnet.plugins.namespace_manager import NamespaceManager
+        ctx.ns_policy = policy
+        ctx.ns_policy_cls = NamespaceManager.policies[policy]
+        ctx.attr_over[(id(NamespaceManager), "default")] = policy
+
+        def lift_field(obj, k, v):
+            if isinstance(obj, NamespaceManager) and k == "namespaces":
+                return NS.NSManagerDict()
+            return v
+        ctx.lift_field = lift_field
+    return prep
